@@ -571,6 +571,11 @@ func (p *parser) readFilter() *Filter {
 
 func (p *parser) readProc() *Proc {
 	end := bytes.Index(p.buf, []byte{')', ']'})
+	if 0 <= end && end < p.pos { // that one closes an earlier fragment: look from here on
+		if end = bytes.Index(p.buf[p.pos:], []byte{')', ']'}); 0 <= end {
+			end += p.pos
+		}
+	}
 	if end < 0 {
 		p.raise("not terminated")
 	}
